@@ -1,0 +1,11 @@
+//go:build verif
+
+package controllers
+
+import "sigs.k8s.io/controller-runtime/pkg/handler"
+
+// VerifEventHandlers exposes the real pod event handlers (otherwise only reachable through SetupWithManager).
+func (r *PodReconciler) VerifEventHandlers() handler.Funcs { return r.eventHandlers() }
+
+// VerifEventHandlers exposes the real BindRequest event handlers (otherwise only reachable through SetupWithManager).
+func (r *BindRequestReconciler) VerifEventHandlers() handler.Funcs { return r.eventHandlers() }
